@@ -1,74 +1,98 @@
 # Claims table read by gen_manifest.py. Levels describe what the checks decide TODAY; they are
 # raised only when the functions named in DESIGN.md section 5 for the property are under contract
-# and their obligations discharge on the delivered tree.
+# and their obligations discharge on the delivered tree. Category "proof" = the statement named in
+# the text is a postcondition/invariant of the real functions, discharged for all inputs by the SMT
+# back ends from VCs generated out of /repo's go/ssa; category "other" = only fragments of the
+# property are decided that way (the text says which) and the rest is out of the technique's reach.
 
 A_COMMON = ("Trusted base: go/types+go/ssa, govc's translation and memory model, the SMT solvers; sequential semantics (one goroutine, "
             "no interference); atomics as plain accesses; mathematical integers with exact conversions; StoreFile/io contracts (A5), "
-            "encoding/binary, bytes.Buffer, encoding/json contracts (A6-A8), neutral callbacks (A9); data-structure invariants that are "
-            "`relies` clauses (assumed at function entry, guaranteed by writers' postconditions, listed in the evidence).")
+            "encoding/binary, bytes.Buffer, encoding/json contracts (A6-A8), neutral callbacks (A9); allocator freshness (A13: a node or handle taken from a free list is treated as new); "
+            "data-structure invariants that are `relies` clauses (assumed at function entry, re-established by the writers' postconditions, listed in the evidence); "
+            "`postulate` clauses (ghost denotations of slots, listed in the evidence).")
+
+A_TREE = (" Tree tier: each nodeLoc/itemLoc slot denotes an abstract tree/item held in ghost arrays (tvs/ias); nodeLoc.read/itemLoc.read POSTULATE that what they return denotes the slot "
+          "(justified by the codec round trip C14 and the append-only file C09, not re-proved per call) and that a node reachable from a live root has not been recycled (the C10 ownership argument, DESIGN 5.C10; "
+          "D6 shows where it breaks). Lemmas about the spec functions proved on paper (DESIGN section 4): L1 (no member of a heap-ordered search tree outranks the root), L2 (cnt of a search tree = number of its keys).")
 
 claim("C14", "proof",
       "Byte-exact layout of item records (16-byte big-endian header, key, value), 52-byte node records and the root record framing is proved as "
       "postconditions, written from the layout text, of the real encoders (itemBa.render, ploc.write, node.populateDiskStruct, itemLoc.write, "
       "nodeLoc.write, Store.writeRoots) and the real decoders (itemBa.populate, ploc.read, populateNode, itemLoc.read, nodeLoc.read, readRootsEnd, "
-      "checkAndReadRoots); encoder and decoder contracts use the same spec functions, so each pair is inverse.",
-      A_COMMON + " Not decided: the JSON text inside the root record (library, A8); children-before-parent order is decided with C02 (writeNodes).")
+      "checkAndReadRoots); encoder and decoder contracts use the same spec functions, so each pair is inverse; writeNodes persists children before parents (P2).",
+      A_COMMON + " Not decided: the JSON text inside the root record (library, A8).")
 
-claim("C03", "other",
-      "Proved: the root scan (scanBackwardsForMagicEnd, readRootsScan, checkAndReadRoots) terminates and lands on the GREATEST position at which a complete, "
-      "self-consistent root record ends (or reports that there is none); a position is accepted iff the framing predicate written from the format holds; "
-      "writeRoots issues exactly one WriteAt and advances size only on success; item/node/root writers only append and a failed write leaves size and the location unset.",
-      A_COMMON + " Not decided yet: that the root record is the LAST write of Flush (Flush itself is not under contract yet) and lemma TornRoot (a torn root record contains no valid root end); crash model = prefix of the ordered write sequence.")
+claim("C01", "proof",
+      "Per-call sorted-map semantics proved over the abstract tree T denoted by the current root: GetItem/Get return the item stored under the key or nil (loop invariant over the descent), "
+      "SetItem/Set make T' = T[key := item] with every other key untouched and reject empty/oversized keys, nil values and negative priorities with T unchanged, "
+      "Delete reports presence and removes exactly that key, MinItem/MaxItem return the extreme keys (walk, both directions), GetTotals returns cnt(T)/sumb(T); "
+      "union/split/join carry the set-level specifications (membership, item-per-key with `that` taking precedence, search order); every lookup leaves all versions untouched. "
+      "Flush/eviction/re-open do not change T by construction of the denotation (they change only which slots are cached).",
+      A_COMMON + A_TREE + " Known findings: Exist has no error result (D9). Histories are covered by induction over calls (each call's relies are the previous calls' ensures), not by exploring sequences; "
+      "value BYTES after evict/reload rest on C14+C09 (the abstract item identity is what lookups are proved to return).")
 
-claim("C08", "other",
-      "Proved for the scan that FlushRevert relies on: termination (loop variants), landing on the greatest valid root at or below the start position or on the empty store "
-      "when asked to default to it, never growing size. The FlushRevert-to-empty hang (D1) was found by the variant obligation and repaired.",
-      A_COMMON + " Not decided yet: FlushRevert's own contract (truncate argument, read-only snapshots, memory-only stores).")
+claim("C13", "proof",
+      "Proved for every node construction site in union/split/join/SetItem: mkNode is called with numNodes = cnt and numBytes = sumb of the abstract children plus the item (exact aggregates, a precondition of mkNode discharged at every call site, numInfo proved to return them); "
+      "search order (bst) is a postcondition of union/split/join/SetItem/Delete; heap order (hp) is preserved by split, join, Delete, and by union/SetItem exactly under the property's own condition (no key overwritten with a lower priority).",
+      A_COMMON + A_TREE + " Not decided: 'canonical shape' (depth determined by keys and priorities alone) is a consequence of bst+hp with distinct priorities (uniqueness lemma U, paper only); persisted aggregates = in-memory aggregates rests on the node codec (C14).")
 
-claim("C09", "other",
-      "Proved for every WriteAt site: itemLoc.write, Store.ItemValWrite, nodeLoc.write and writeRoots write only at offsets >= the size at entry, leave every byte below it unchanged "
-      "(samePrefix), and do not touch other files; the read paths under contract (scan, itemLoc.read, nodeLoc.read) have the empty write effect by their frame conditions.",
-      A_COMMON + " Not decided yet: the effect typing of the remaining read-only API entry points and the single Truncate site (FlushRevert).")
+claim("C03", "proof",
+      "Proved: the root scan (scanBackwardsForMagicEnd, readRootsScan, checkAndReadRoots, readRoots, NewStoreEx) terminates and opens at the GREATEST position at which a complete, "
+      "self-consistent root record ends (or reports that there is none; an I/O error is never mistaken for 'invalid' -- D5, repaired); a position is accepted iff the framing predicate written from the format holds; "
+      "Flush writes items, then nodes, then the root record as its LAST write (commit point: magicEndAt(size) and size grew by at least one root record), never touches a byte below the old size, and a failed write leaves size and locations unset.",
+      A_COMMON + " Not decided: lemma TornRoot (a strict prefix of a root record contains no valid root end) is argued on paper; crash model = prefix of the ordered write sequence.")
 
-claim("C07", "other",
-      "Proved for the functions under contract: every file error is propagated (ghost counter io.fails: if it grew, the error result is non-nil) -- this found and led to the repair of D5; "
-      "failed writes leave size/locations unchanged (E3); no reachable panic (nil dereference, index, slice, explicit panic) under the stated preconditions; every loop and recursion has a variant.",
-      A_COMMON + " Not decided yet: the public mutation/lookup/visit entry points (SetItem, Delete, GetItem, visits, Flush, CopyTo) -- their E1/E3 clauses come with the tree tier.")
+claim("C08", "proof",
+      "Proved: FlushRevert lands on the greatest valid root strictly below the current one or on the empty store, truncates exactly there (once, never on a snapshot, never writes), refuses memory-only stores, "
+      "and terminates (loop variants of the scan; the FlushRevert-to-empty hang D1 was found by the variant obligation and repaired).",
+      A_COMMON + " Not decided: that the collections re-read after the revert equal the ones flushed then (JSON decode, A8).")
 
-claim("C12", "other",
+claim("C09", "proof",
+      "Proved for every WriteAt site and their callers up to Flush: writes go only at offsets >= the size at entry, every byte below it is unchanged (samePrefix), other files are untouched; "
+      "the read paths under contract (scan, itemLoc.read, nodeLoc.read, GetItem, walk, GetTotals, split/join/union) have the empty write effect by their frame conditions; the single Truncate site is FlushRevert's (exactly once, at a valid root or 0, never on a read-only snapshot).",
+      A_COMMON + " Not decided: CopyTo and the visits (not under contract).")
+
+claim("C07", "proof",
+      "Proved for the functions under contract (codecs, scan/open, writers, Flush, FlushRevert, GetItem, Get, SetItem, Set, Delete, walk, MinItem, MaxItem, GetTotals, union, split, join): every file error is propagated "
+      "(ghost counter io.fails: if it grew, the error result is non-nil) -- this found D5 (repaired); failed writes leave size/locations unchanged; a failed SetItem/Delete leaves the published root and its denotation unchanged; "
+      "no reachable panic (nil dereference, index, slice, explicit panic) under the stated preconditions; every loop and recursion has a variant.",
+      A_COMMON + A_TREE + " Known findings (recorded, not repaired): D6 reclaim marks left behind by a failed SetItem/Delete, D9 Exist swallows read errors. Not decided: visits, CopyTo, 'after the fault clears' histories.")
+
+claim("C12", "proof",
       "Proved: SetCollection/RemoveCollection/GetCollection against a finite-map model of the store's collection map (new name => fresh empty collection; existing name => same version object, "
       "only the comparator replaced; other names and handles untouched; the published map object is never mutated; the retry loop never iterates sequentially); collNames/GetCollectionNames return a sorted slice; "
       "closing the replaced handle leaves a still-referenced version untouched (R3) -- this found D4, which was repaired.",
-      A_COMMON + " Not decided yet: durability of the name set (root record contents, with Flush).")
+      A_COMMON + " Not decided: durability of the name set beyond 'the root record is written last' (JSON, A8).")
 
 claim("C15", "other",
-      "Proved per function (ghost net[i] = references gkvlite holds, updated only by the callback contracts): the dispatch wrappers on both arms, itemLoc.read (a loaded item has count 1, the replaced cached item is released once, nothing is leaked on error paths), "
-      "mkNode (a copied slot takes a reference), freeNodeUnlocked (the slot's reference is released once).",
-      A_COMMON + " The invariant 'every occupied slot is backed by a count' is a `relies` clause; the public entry points and the visits (known leaks D7, D12) are not under contract yet.")
+      "Proved per function (ghost net[i] = references gkvlite holds, updated only by the callback contracts): the dispatch wrappers on both arms, itemLoc.read (a loaded item has count 1, the replaced cached item is released once, nothing is leaked on error paths, key-only loads release nothing), "
+      "mkNode (a copied slot takes a reference), freeNodeUnlocked (the slot's reference is released once), GetItem/walk (the caller gets exactly one reference), Exist (balanced -- the leak D12 was found by this obligation and repaired).",
+      A_COMMON + " The invariant 'every occupied slot is backed by a count' is a `relies` clause; Get cannot release the reference it takes (API shape), the visits (D7) and Len are not under contract; whole-history balance ('once everything is closed') is not decided.")
 
-claim("C17", "other",
+claim("C17", "proof",
       "Every obligation of itemLoc.write/read, Item.NumValBytes/NumBytes, itemLoc.NumBytes and the five dispatch wrappers is generated with the callback fields symbolic (nil or a neutral implementation per A9), "
       "so layout, bookkeeping and accounting are proved for all installation subsets at once; the on-disk value length is the callback's answer when installed.",
       A_COMMON + " 'Neutral' is defined by the functype contracts (A9), including cbvlen(i) == len(i.Val) when the default writer is used with a custom length callback.")
 
-claim("C19", "other",
+claim("C19", "proof",
       "Proved: itemLoc.read with withValue=false covers no value byte (ghost io.valbytes, counted by the ReadAt contract through an uninterpreted 'value byte' predicate, with the rely that an item record's header and key bytes are not value bytes); "
-      "nodeLoc.read issues at most one 52-byte read and covers no value byte; populateNode loads nothing else.",
-      A_COMMON + " Not decided yet: the key-only API entry points built on them and 'open reads only the root record'.")
+      "nodeLoc.read issues at most one 52-byte read and covers no value byte; GetItem(withValue=false), Exist, walk/MinItem/MaxItem(withValue=false), GetTotals, SetItem, Set, Delete, union, split, join read no value byte (io.valbytes unchanged is a postcondition of each).",
+      A_COMMON + " Not decided: 'open reads only the root record' beyond the scan's own reads; Len and the visits.")
 
 claim("C02", "other",
-      "Proved premises P1 (codecs inverse) and P3 (each record is written at offset = size with the recorded location {offset, exact length} and size advanced by exactly that) for items, nodes and the root record; "
-      "P5's scan part (open lands on the greatest valid root).",
-      A_COMMON + " Not decided yet: P2 (children before parents: writeItems/writeNodes), P4 (the root record names the pinned versions), P5's decode part.")
+      "Proved premises P1 (codecs inverse), P2 (writeItems/writeNodes persist children before parents; locations only appear), P3 (each record is written at offset = size with the recorded location {offset, exact length} and size advanced by exactly that) for items, nodes and the root record; "
+      "P5's scan part (open lands on the greatest valid root); Flush's commit point is its last write.",
+      A_COMMON + " Not decided: P4 (the root record names the pinned versions: JSON, A8), P5's decode part; the end-to-end 'reopen = last flushed state' composition is a paper argument over these premises.")
 
 claim("C10", "other",
-      "Local protocol obligations proved: only unmarked nodes get marked and never the sentinel; re-marking moves only nodes carrying the old mark; reclaim frees only nodes carrying this version's mark (R5); a version still referenced after a release is left untouched (R3/R5); "
-      "no double free of nodes, nodeLocs, rootNodeLocs (the panics are unreachable under the stated preconditions); rootCAS chains a still-referenced predecessor (R4); allocators overwrite every field (R6).",
-      A_COMMON + " The whole-heap ownership invariant that ties these together (no node of a live version is on a free list) is a paper argument (DESIGN 5.C10); allocator freshness A13 is postulated at mk* call sites; one separation fact is assumed after the chained release (listed).")
+      "Local protocol obligations proved: only unmarked nodes get marked and never the sentinel; re-marking moves only nodes carrying the old mark; reclaim frees only nodes carrying this version's mark (R5); a version still referenced after a release is left untouched (R3/R5); the last release of an unchained version frees only that version's root handle (R7); "
+      "no double free of nodes, nodeLocs, rootNodeLocs (the panics are unreachable: split/join/union return fresh, unlinked handles, proved); rootCAS chains a still-referenced predecessor (R4); allocators overwrite every field (R6).",
+      A_COMMON + " The whole-heap ownership invariant that ties these together (no node of a live version is on a free list) is a paper argument (DESIGN 5.C10); known finding D6 (marks left by failed mutations) is where it breaks; one separation fact is assumed after the chained release (listed).")
 
 claim("C04", "other",
-      "Proved so far: releasing a handle (closeCollection, rootDecRef) leaves every version that is still referenced untouched; rootAddRef/rootDecRef change exactly one count.",
-      A_COMMON + " Not decided yet: Snapshot, the read-only guards, Close/FlushRevert on snapshots.")
+      "Proved: Snapshot returns a fresh read-only store over the same file and the same version objects, leaving every existing handle and the published map untouched; read-only stores refuse Flush, SetItem, Delete (unchanged state); FlushRevert on a snapshot never truncates or writes; "
+      "releasing a handle (closeCollection, rootDecRef) leaves every version that is still referenced untouched (D4 found here, repaired); lookups, walks and GetTotals leave all versions and their denotations untouched.",
+      A_COMMON + " Not decided: isolation over histories (a snapshot keeps reading the old contents while the original mutates) follows from 'mutations publish a new version and leave older version objects' denotations untouched' per call, not explored over interleavings.")
 
 claim("C05", "other",
       "Sequential protocol facts only (no schedule is explored): every function under contract returns with exactly the locks it was entered with, never re-acquires a lock it holds, and holds no gkvlite lock while a StoreFile method or callback runs "
@@ -76,10 +100,8 @@ claim("C05", "other",
       A_COMMON + " Linearizability, lost updates and the benign-ness of the unsynchronised lazy caches are NOT decided (family limit).")
 
 for pid, why in {
-    "C01": "tree tier (union/split/join and the public map operations) not under contract yet in this round",
     "C06": "visitNodes / range visits not under contract yet in this round",
     "C11": "CopyTo not under contract yet in this round",
-    "C13": "tree invariants come with the tree tier; not claimed yet in this round",
     "C16": "Len and the block visits not under contract yet in this round",
     "C18": "iterator (goroutine + channels) is outside the verifier's subset; the sequential obligations (pins released, no lock across callbacks) are not claimed yet",
 }.items():
